@@ -1,5 +1,6 @@
 import JT.Proof.GoAttach
 import JT.Proof.GoModelBcd
+import JT.Proof.GoAttachMsg
 /-!
 # C10 / C15 — the chunk-header parsers of the attachment server as they stand in the source
 
@@ -45,5 +46,24 @@ every block and every dialect -/
 theorem source_alarm_sign_total (fuel : Nat) (p : Gen.GoModel.model_P9208AlarmSign) (d : Bytes) (h : d.length < fuel) :
     ∃ r, Gen.GoModel.model_P9208AlarmSign_parse fuel p d = .ok r :=
   (X.isOk_iff _).mp (Gen.GoModel.AlarmSign_parse_total fuel p d h)
+
+/-- **The control-frame splitter of the attachment connection (translated source) never panics and consumes exactly one
+delimited candidate**: `(*PackageProgress).parseJT808Message`, for every pending buffer (budget above its length) —
+fewer than 10 bytes, or no delimiter after the first byte: "insufficient data" and the buffer is untouched; otherwise the
+bytes up to and including the first delimiter after position 0 are handed to the frame decoder: an accepted frame is
+removed from the buffer and returned with the model's fields, a rejected one is reported and nothing is consumed. -/
+theorem source_control_frame_splitter (fuel : Nat) (p : Gen.GoAttach.attachment_PackageProgress) (hf : p.historyData.length < fuel) :
+    (p.historyData.length < 10 →
+      Gen.GoAttach.attachment_PackageProgress_parseJT808Message fuel p = .ok (p, Gen.GoFrame.jt808_JTMessage.zero, some "ErrInsufficientDataLen")) ∧
+    (10 ≤ p.historyData.length → indexByte (p.historyData.drop 1) 0x7e = -1 →
+      Gen.GoAttach.attachment_PackageProgress_parseJT808Message fuel p = .ok (p, Gen.GoFrame.jt808_JTMessage.zero, some "ErrInsufficientDataLen")) ∧
+    (10 ≤ p.historyData.length → ∀ k : Nat, indexByte (p.historyData.drop 1) 0x7e = (k : Int) →
+      k + 2 ≤ p.historyData.length ∧
+      match Frame.decode (p.historyData.take (k + 2)) with
+      | .ok m => ∃ j, Gen.GoAttach.attachment_PackageProgress_parseJT808Message fuel p =
+          .ok ({ p with historyData := p.historyData.drop (k + 2) }, j, none) ∧ Gen.GoFrame.Rep j m
+      | .err => Gen.GoAttach.attachment_PackageProgress_parseJT808Message fuel p = .ok (p, Gen.GoFrame.jt808_JTMessage.zero, some "error")
+      | .panic => False) :=
+  Gen.GoAttach.parseJT808Message_spec fuel p hf
 
 end JT.C10
